@@ -13,10 +13,12 @@ def coded_ordinal(seed):
     from AutoCarver.discretizers import GroupedList, QualitativeDiscretizer, Discretizer
     from AutoCarver.carvers.binary_carver import BinaryCarver
     rng = random.Random(seed); recs = []
-    k = rng.choice([4, 5, 6]); n = rng.choice([120, 200]); codes = list(range(1, k + 1)); j = rng.randrange(k - 1)          # codes j+1 and j+2 pre-grouped
+    k = rng.choice([4, 5, 6]); n = rng.choice([120, 200]); j = rng.randrange(k - 1)          # the j-th and (j+1)-th codes OF THE RANKING are pre-grouped
+    codes = list(range(1, k + 1))
+    if seed % 3 == 1: codes = list(range(0, k)); rng.shuffle(codes)          # the ranking is NOT the numeric order of the codes, and the codes 0, 1, 2 ... are also float ranks
     w = [rng.random() + 0.3 for _ in codes]; col = rng.choices(codes, w, k=n); as_float = rng.random() < 0.5
     X = pd.DataFrame({'o': pd.Series([float(c) for c in col] if as_float else col, dtype=float if as_float else object), 'q': [round(rng.random() * 5, 1) for _ in range(n)]})
-    y = pd.Series([int(rng.random() < 0.2 + 0.1 * c) for c in col])
+    rank_of = {c: i for i, c in enumerate(codes)}; y = pd.Series([int(rng.random() < 0.2 + 0.1 * rank_of[c]) for c in col])
     content = {}
     for i, c in enumerate(codes):
         if i == j + 1: continue
@@ -44,8 +46,10 @@ def coded_ordinal(seed):
         if t[0] == 'ok' and getattr(o, 'output_dtype', 'str') == 'float':
             lab = {}
             for c, v in zip(col, t[1]['o'].tolist()): lab.setdefault(c, set()).add(v)
-            vals = [sorted(lab[c])[0] for c in codes if c in lab]
-            recs.append(('C03:transform#post.ordinal_float_output_monotone_in_rank', all(len(lab[c]) == 1 for c in lab) and all(a <= b for a, b in zip(vals, vals[1:])), wk, '%s: float output per code %r' % (name, {c: sorted(lab[c]) for c in sorted(lab)})))
+            vals = [sorted(lab[c])[0] for c in codes if c in lab]          # along the RANKING
+            expected = [float(group_of[c]) for c in codes if c in lab]          # 'float' labels are the group's rank in the fitted order
+            recs.append(('C03:transform#post.ordinal_float_output_monotone_in_rank', all(len(lab[c]) == 1 for c in lab) and all(a <= b for a, b in zip(vals, vals[1:])) and [float(v) for v in vals] == expected, wk,
+                         '%s: float output per code along the ranking %r, rank of its group in the fitted order %r' % (name, {c: sorted(lab[c]) for c in codes if c in lab}, expected)))
     return recs
 
 
